@@ -24,6 +24,26 @@ pub fn fault_error(idx: usize) -> (ErrorKind, Option<i32>) {
     }
 }
 
+/// Payload of every simulated (non-OS) source failure: a typed error, so that "that I/O error"
+/// can be told from a rebuilt one with the same kind and text.
+#[derive(Debug)]
+pub struct SimFailure {
+    pub offset: usize,
+}
+
+impl std::fmt::Display for SimFailure {
+    fn fmt(&self, f: &mut std::fmt::Formatter<'_>) -> std::fmt::Result {
+        write!(f, "simulated source failure at offset {}", self.offset)
+    }
+}
+
+impl std::error::Error for SimFailure {}
+
+/// The offset carried by a [`SimFailure`] payload, if the error (still) has one.
+pub fn payload_of(e: &io::Error) -> Option<usize> {
+    e.get_ref().and_then(|r| r.downcast_ref::<SimFailure>()).map(|p| p.offset)
+}
+
 pub const ERR_KINDS: [ErrorKind; 7] = [
     ErrorKind::Other,
     ErrorKind::BrokenPipe,
@@ -162,6 +182,7 @@ pub struct SrcState {
     step_idx: usize,
     /// Interrupted results still owed by the current `Storm` step.
     storm_left: usize,
+    storm_calls: u64,
     /// While false the source serves `pre_steps` sizes only (used to pre-fill a `BufReader`).
     pub armed: bool,
     pub pre_sizes: Vec<usize>,
@@ -205,6 +226,7 @@ impl SimSource {
             pos: 0,
             step_idx: 0,
             storm_left: 0,
+            storm_calls: 0,
             armed: true,
             pre_sizes: vec![],
             pre_idx: 0,
@@ -231,9 +253,11 @@ impl Read for SimSource {
         let offered = buf.len();
         let before = st.pos;
         st.c.calls += 1;
-        if st.c.calls > st.budget {
+        // (planned storms are bounded by construction and do not count against the budget)
+        if st.c.calls - st.storm_calls > st.budget {
             st.budget_exceeded = true;
         }
+        let mut quiet = false;
         let limit = match st.cfg.fail_at {
             Some((k, _)) => k.min(st.data.len()),
             None => st.data.len(),
@@ -274,6 +298,9 @@ impl Read for SimSource {
                 if st.storm_left == 0 {
                     st.storm_left = n.max(1);
                 }
+                st.storm_calls += 1;
+                // the call log keeps the first and the last 512 calls of a storm
+                quiet = st.storm_left > 512 && n.max(1) - st.storm_left > 512;
                 st.storm_left -= 1;
                 if st.storm_left > 0 {
                     st.step_idx -= 1; // stay on this step
@@ -319,10 +346,9 @@ impl Read for SimSource {
                                 st.failed = true;
                                 st.c.errors += 1;
                                 res = CallRes::Err;
-                                let msg = st.fail_msg();
                                 ret = Err(match st.cfg.fail_os {
                                     Some(code) => io::Error::from_raw_os_error(code),
-                                    None => io::Error::new(kind, msg),
+                                    None => io::Error::new(kind, SimFailure { offset: k }),
                                 });
                             }
                             _ => {
@@ -364,7 +390,7 @@ impl Read for SimSource {
             CallRes::Lie => u64::MAX - 3,
             CallRes::Panic => u64::MAX - 4,
         });
-        if st.keep_log && !st.budget_exceeded {
+        if st.keep_log && !st.budget_exceeded && !quiet {
             st.log.push((offered, res, before));
         }
         if res == CallRes::Panic {
@@ -386,7 +412,9 @@ pub enum ReadPolicy {
     FixedSize(usize),
 }
 
-pub const STORM_SIZES: [usize; 10] = [127, 128, 255, 256, 257, 1000, 65_535, 65_536, 65_537, 100_000];
+pub const STORM_SIZES: [usize; 14] = [
+    127, 128, 255, 256, 257, 1000, 65_535, 65_536, 65_537, 100_000, 127, 65_536, 1_048_577, 2_200_000,
+];
 
 /// Generates a plan for `len` bytes of data.
 ///
